@@ -2,6 +2,7 @@ import TinysetModel.Proofs.TotalSites
 import TinysetModel.Proofs.Total32Insert
 import TinysetModel.Proofs.Plain2
 import TinysetModel.Proofs.FaultSpec
+import TinysetModel.Proofs.FaultExtend
 /-! C14 — allocation failure is contained.
 What a theorem about the functional model can and cannot say.  In the model an operation returns a new
 value, so "the set is unchanged when the operation fails" holds by construction; the question for the
@@ -84,6 +85,26 @@ theorem failure_states_u32 (g : Rng D) {r : Rp} (wf : WF cfg32 r) (e : Nat) (he 
       tr.length ≤ 1 ∧ ∀ s ∈ tr, WF cfg32 s ∧ (elems cfg32 s).Perm (elems cfg32 r) ∧ len s = len r :=
   insertT_contained_u32 g wf e he hsize d
 
+/-- **`extend` (SetU64): a failed request inside the insert loop leaves a usable set between the prior and the final
+    contents.** Every state `*self` can be found in is well-formed, holds every prior member, and nothing but prior
+    members and values of the batch; at most one request per value. `CapOK r M`: `M` bounds the member count the
+    set ever had (it bounds the capacity, see C11). -/
+theorem extend_failure_states_u64 (g : Rng D) (fuel : Nat) {r : Rp} (wf : WF cfg64 r) (xs : List Nat)
+    (hx : ∀ x ∈ xs, x < 2 ^ 64) {M : Nat} (hc : CapOK r M) (hsize : M + xs.length < 2 ^ 60) (d : D) :
+    ∃ r' tr d', extendT cfg64 true g (fuel + 2) r xs d = .ok ((r', tr), d') ∧
+      extend cfg64 g (fuel + 2) r xs d = .ok (r', d') ∧ tr.length ≤ xs.length ∧
+      ∀ s ∈ tr, WF cfg64 s ∧ (∀ y ∈ elems cfg64 r, y ∈ elems cfg64 s) ∧
+        (∀ y ∈ elems cfg64 s, y ∈ elems cfg64 r ∨ y ∈ xs) :=
+  extendT_contained_u64 g fuel wf xs hx hc hsize d
+
+theorem extend_failure_states_u32 (g : Rng D) (fuel : Nat) {r : Rp} (wf : WF cfg32 r) (xs : List Nat)
+    (hx : ∀ x ∈ xs, x < 2 ^ 32) {M : Nat} (hc : CapOK r M) (hsize : M + xs.length < 2 ^ 28) (d : D) :
+    ∃ r' tr d', extendT cfg32 false g (fuel + 2) r xs d = .ok ((r', tr), d') ∧
+      extend cfg32 g (fuel + 2) r xs d = .ok (r', d') ∧ tr.length ≤ xs.length ∧
+      ∀ s ∈ tr, WF cfg32 s ∧ (∀ y ∈ elems cfg32 r, y ∈ elems cfg32 s) ∧
+        (∀ y ∈ elems cfg32 s, y ∈ elems cfg32 r ∨ y ∈ xs) :=
+  extendT_contained_u32 g fuel wf xs hx hc hsize d
+
 /-- non-vacuity: a full 4-bucket plain table whose placeholder 100 is inserted while 0 is a member: the one request
     is made with the placeholder already replaced by 200 in place — the state differs from the prior one
     (`#[100, 5, 6, 7]` with placeholder 100), the members `0, 5, 6, 7` are kept -/
@@ -97,3 +118,5 @@ end C14
 #print axioms C14.refill_never_grows_u32
 #print axioms C14.failure_states_u64
 #print axioms C14.failure_states_u32
+#print axioms C14.extend_failure_states_u64
+#print axioms C14.extend_failure_states_u32
